@@ -218,6 +218,8 @@ func runC14(p *P, r *R) {
 	// (shared with C11 R11.11)
 	borrow(p, r, "C11", runC11, map[string]string{"R11.11": "R14.8", "R11.12": "R14.8", "R11.13": "R14.8"}, nil)
 	c14NoAllocAfterClose(p, r)
+	// R14.10 a peer that dies mid-handshake leaves no mapping, descriptor or file behind on the surviving side (shared with C12 R12.2)
+	borrow(p, r, "C12", runC12, map[string]string{"R12.2": "R14.10"}, nil)
 }
 
 func describeEffect(p *P, in ssa.Instruction) string {
